@@ -215,8 +215,7 @@ func (em *emitter) emitNodes(nodes []ast.Node) {
 
 		case *ast.Raw:
 			if text := node.Text; text != nil {
-				txt := text.Text[node.Text.Cut.Left : len(text.Text)-text.Cut.Right]
-				if len(txt) != 0 {
+				if txt := cutText(text); len(txt) != 0 {
 					em.fb.emitText(txt, em.inURL, em.isURLSet)
 				}
 			}
@@ -325,8 +324,7 @@ func (em *emitter) emitNodes(nodes []ast.Node) {
 			em.breakLabel = currentBreakLabel
 
 		case *ast.Text:
-			txt := node.Text[node.Cut.Left : len(node.Text)-node.Cut.Right]
-			if len(txt) != 0 {
+			if txt := cutText(node); len(txt) != 0 {
 				em.fb.emitText(txt, em.inURL, em.isURLSet)
 			}
 
